@@ -206,7 +206,8 @@ def dom_check(db, fn, effect_blocks, pred):
     """Every (feasible) path entry -> effect passes an edge implying pred.
     Returns (ok, allow_edges, offending {effect_bb: path})."""
     g = graph(fn)
-    allow = edges_where(db, fn, pred)
+    # an assertion is not a guard: the passing side of `assert!(cond)` (whose other side only panics) does not count
+    allow = [e for e in edges_where(db, fn, pred) if not g.is_assertion_edge(e[0], e[1])]
     blocks = g.reach_k([(0, frozenset())], avoid_edges=allow)
     bad = {}
     for e in effect_blocks:
